@@ -262,6 +262,7 @@ def run(ctx):
     handover_rule(ctx, esc, 'S3')
 
     # ---------------------------------------------------------------- S4
+    common.from_exception_total(ctx, esc, 'S4')
     # deleting a CHILD_SA the kernel has already expired (crossing deletes / expires) is not an error
     from .c10 import kernel_teardown
     kernel_teardown(ctx, esc, 'S4')
